@@ -16,6 +16,9 @@ import (
 	"github.com/cosmos/cosmos-sdk/baseapp"
 	codectypes "github.com/cosmos/cosmos-sdk/codec/types"
 	sdk "github.com/cosmos/cosmos-sdk/types"
+	clienttx "github.com/cosmos/cosmos-sdk/client/tx"
+	"github.com/cosmos/cosmos-sdk/types/tx/signing"
+	authsigning "github.com/cosmos/cosmos-sdk/x/auth/signing"
 	authtx "github.com/cosmos/cosmos-sdk/x/auth/tx"
 	authtypes "github.com/cosmos/cosmos-sdk/x/auth/types"
 	banktypes "github.com/cosmos/cosmos-sdk/x/bank/types"
@@ -206,6 +209,31 @@ func (c *chain) buildEthTx(a ethTxArgs) ([]byte, *ethtypes.Transaction) {
 	out, err := c.s.EncodingConfig.TxConfig.TxEncoder()(txBuilder.GetTx())
 	require.NoError(c.t, err)
 	return out, tx
+}
+
+// buildCosmosTxFee builds and signs (SIGN_MODE_DIRECT) a Cosmos tx with an explicit fee amount and sequence.
+func (c *chain) buildCosmosTxFee(from *itutiltypes.TestAccount, msgs []sdk.Msg, seq uint64, gas uint64, fee *big.Int) []byte {
+	txCfg := c.s.EncodingConfig.TxConfig
+	b := txCfg.NewTxBuilder()
+	require.NoError(c.t, b.SetMsgs(msgs...))
+	b.SetGasLimit(gas)
+	if fee.Sign() > 0 {
+		b.SetFeeAmount(sdk.NewCoins(sdk.NewCoin(c.evmDenom, sdkmath.NewIntFromBigInt(fee))))
+	}
+	ctx := c.ctx()
+	acc := c.s.ChainApp.AccountKeeper().GetAccount(ctx, from.GetCosmosAddress())
+	require.NotNil(c.t, acc)
+	signMode, err := authsigning.APISignModeToInternal(txCfg.SignModeHandler().DefaultMode())
+	require.NoError(c.t, err)
+	sig0 := signing.SignatureV2{PubKey: from.GetPubKey(), Data: &signing.SingleSignatureData{SignMode: signMode}, Sequence: seq}
+	require.NoError(c.t, b.SetSignatures(sig0))
+	sd := authsigning.SignerData{ChainID: c.hdr.ChainID, AccountNumber: acc.GetAccountNumber(), Sequence: seq}
+	sig, err := clienttx.SignWithPrivKey(ctx, signMode, sd, b, from.PrivateKey, txCfg, seq)
+	require.NoError(c.t, err)
+	require.NoError(c.t, b.SetSignatures(sig))
+	bz, err := txCfg.TxEncoder()(b.GetTx())
+	require.NoError(c.t, err)
+	return bz
 }
 
 // buildBankSend builds a signed Cosmos MsgSend tx with an explicit sequence.
